@@ -2,6 +2,7 @@ SPECIFICATION Spec
 CONSTANTS
   G <- MCG
   Ctx <- Distinct
+  Kind <- MixedKinds
   NOuter = 2
   NInner = 1
 INVARIANTS ReadOwn NoLeak
